@@ -86,11 +86,14 @@ class NotAndMacro(Macro):
 
     def eval(self, args, prevs):
         goal, pt0 = Or(*args), prevs[0]
-        conj_atoms = pt0.prop.arg.strip_conj()
-        disj_atoms = goal.strip_disj()
-        for i, j in zip(conj_atoms, disj_atoms):
-            if Not(i) != j:
-                raise VeriTException("not_and", "unexpected goal: %s" % goal)
+        if not pt0.prop.is_not() or len(args) == 0:
+            raise VeriTException("not_and", "premise must be a negated conjunction")
+        try:
+            conj_atoms = strip_conj_n(pt0.prop.arg, len(args))
+        except AssertionError:
+            raise VeriTException("not_and", "unexpected goal: %s" % goal)
+        if tuple(Not(i) for i in conj_atoms) != tuple(args):
+            raise VeriTException("not_and", "unexpected goal: %s" % goal)
 
         return Thm(goal, pt0.hyps)
 
